@@ -116,4 +116,45 @@ def replay(prop, path):
         outcome = Outcome(prop)
         ledger.validate(prop, trace, scen, outcome, spec=payload.get("spec", "LedgerTrace"))
         return outcome.finish()
-    raise common.ToolError("unknown replay kind")
+    kind = payload.get("kind")
+    if kind == "send" and "config" in payload:
+        # re-execute the recorded wallet configuration on the real builder
+        import send as send_mod
+        cfgs = os.path.join(common.WORK, "replay-send-%d.ndjson" % os.getpid())
+        with open(cfgs, "w") as f:
+            f.write(json.dumps(payload["config"]) + "\n")
+        trace = os.path.join(common.WORK, "replay-send-trace-%d.ndjson" % os.getpid())
+        common.ordv(["send", "--configs", cfgs, "--out", trace])
+        outcome = Outcome(prop)
+        send_mod.validate("C20", trace, outcome)
+        return outcome.finish()
+    if kind == "proto" and isinstance(payload.get("scenario"), dict) and "steps" in payload["scenario"]:
+        # re-execute the recorded scenario on the real index
+        sc = payload["scenario"]
+        key = (sc.get("commit_interval") or 5000, sc.get("savepoint_interval") or 10, sc.get("max_savepoints") or 2)
+        outcome = Outcome(prop)
+        proto.run_groups(prop, {key: json.dumps(sc) + "\n"}, outcome, [prop], strict=(prop == "C13"))
+        return outcome.finish()
+    if kind in ("fn", "simple", "wallet") and "case" in payload:
+        # the recorded observation is re-validated against the current specification (the code is not re-run:
+        # rerun ./check <ID> with the same VERIF_SEED for that)
+        spec = {"fn": "FnTrace", "simple": simple.TABLE.get(prop, {}).get("spec"),
+                "wallet": {"C21": "BatchTrace", "C22": "WalletTrace", "C23": "WalletTrace", "C24": "OfferTrace"}.get(prop)}[kind]
+        if not spec:
+            raise common.ToolError("no trace specification registered for %s" % prop)
+        trace = os.path.join(common.WORK, "replay-case-%d.ndjson" % os.getpid())
+        with open(trace, "w") as f:
+            for row in payload.get("context", []):
+                f.write(json.dumps(row) + "\n")
+            f.write(json.dumps(payload["case"]) + "\n")
+        res = run_tlc(spec + ".tla", spec + ".cfg", env={"TRACE": trace, "PROP": prop}, timeout=1800)
+        matched, total, fails, known = common.parse_trace_result(res["out"])
+        if matched is None:
+            log(res["out"][-2000:])
+            raise common.ToolError("%s gave no verdict" % spec)
+        outcome = Outcome(prop)
+        if matched != total:
+            detail = res["out"][res["out"].find('"FAIL"'):][:600].replace("\n", " ")
+            outcome.violation("recorded observation rejected (%s): %s" % (",".join(fails[:2]), detail), payload)
+        return outcome.finish()
+    raise common.ToolError("replay kind %r carries no re-runnable input; rerun ./check %s with the same VERIF_SEED" % (kind, prop))
